@@ -11,6 +11,7 @@ import (
 	"io"
 
 	"github.com/talostrading/sonic"
+	"github.com/talostrading/sonic/sonicerrors"
 )
 
 var ErrInjected = errors.New("memstream: injected transport error")
@@ -31,6 +32,9 @@ type Stream struct {
 
 	// WriteErrAt: the k-th transport write (0-based, counting sync and async) fails. -1 = never.
 	WriteErrAt int
+	// SyncWritePlan scripts the synchronous Write calls like a non-blocking socket: entry n>0 accepts at most n bytes
+	// (a short write), entry 0 reports sonicerrors.ErrWouldBlock with nothing written. Once exhausted everything is accepted.
+	SyncWritePlan []int
 	writes     int
 
 	parked       []*op
@@ -179,7 +183,19 @@ func (s *Stream) write(b []byte) (int, error) {
 	return len(b), nil
 }
 
-func (s *Stream) Write(b []byte) (int, error) { return s.write(b) }
+func (s *Stream) Write(b []byte) (int, error) {
+	if len(s.SyncWritePlan) > 0 && len(b) > 0 {
+		n := s.SyncWritePlan[0]
+		s.SyncWritePlan = s.SyncWritePlan[1:]
+		if n == 0 {
+			return 0, sonicerrors.ErrWouldBlock
+		}
+		if n < len(b) {
+			b = b[:n]
+		}
+	}
+	return s.write(b)
+}
 
 func (s *Stream) AsyncWrite(b []byte, cb sonic.AsyncCallback) {
 	s.start(true, func() {
